@@ -17,7 +17,8 @@ ID = 'C16'
 CASES = {'quick': 400, 'thorough': 30000}
 RULE = ('Hypothesis draws 1..3 composer descriptions (1..3 processes with '
         'different timesteps and state-dependent deterministic updates, 0..3 '
-        'steps with a drawn flow, topology inside the compartment), an '
+        'steps with a drawn flow, 0..2 legacy derivers listed under `processes`, '
+        'topology inside the compartment), an '
         'embedding path of depth 0..3, a merge sequence of 1..4 entries '
         '(composites or loose parts, each optionally at a path, the same '
         'template composite possibly merged several times, further material '
@@ -53,7 +54,9 @@ def part(draw, tag):
                 if draw(st.integers(0, 2)) == 0]
         steps.append({'name': '%ss%d' % (tag, i), 'deps': deps,
                       'salt': draw(st.integers(1, 9))})
-    return {'procs': procs, 'steps': steps,
+    legacy = [{'name': '%sd%d' % (tag, i), 'salt': draw(st.integers(1, 9))}
+              for i in range(draw(st.sampled_from([0, 0, 1, 2])))]
+    return {'procs': procs, 'steps': steps, 'legacy': legacy,
             'state': {'shared': {'sum': draw(st.integers(0, 20))}},
             # the source composite is itself generated at this path, so its
             # processes/steps/flow/topology/state are nested dictionaries
